@@ -290,7 +290,7 @@ def _field_lines(prog, T, f, ind):
             ty = _ST_NAME[f["st"]]
         if f.get("explicit_bits"):
             ty += ":%d" % f["w"]
-        if T["unit"] == 8 and f["order"] != (T.get("default_order") or prog.default_order):
+        if T["unit"] == 8 and f["order"] != (T.get("default_order") or prog.default_order or "Null"):
             attrs.append('[byte_order: "%s"]' % _ORDER_NAME[f["order"]])
         for r in f.get("requires", []):
             attrs.append("[requires: %s]" % render_expr(r))
@@ -304,7 +304,7 @@ def _field_lines(prog, T, f, ind):
             ty = f["type"]
             if f["args"]:
                 ty += "(%s)" % ", ".join(render_expr(a) for a in f["args"])
-        if S["unit"] == 1 and T["unit"] == 8 and f["order"] != (T.get("default_order") or prog.default_order):
+        if S["unit"] == 1 and T["unit"] == 8 and f["order"] != (T.get("default_order") or prog.default_order or "Null"):
             attrs.append('[byte_order: "%s"]' % _ORDER_NAME[f["order"]])
         if f["anon"] or f.get("inline"):
             for m in S["fields"]:
@@ -325,7 +325,7 @@ def _field_lines(prog, T, f, ind):
             else:
                 ty += "[]"
         eo = e.get("order")
-        if T["unit"] == 8 and eo and eo != (T.get("default_order") or prog.default_order) and (e["kind"] == "scalar" or prog.types[e["type"]]["unit"] == 1):
+        if T["unit"] == 8 and eo and eo != (T.get("default_order") or prog.default_order or "Null") and (e["kind"] == "scalar" or prog.types[e["type"]]["unit"] == 1):
             attrs.append('[byte_order: "%s"]' % _ORDER_NAME[eo])
     if f.get("text_output"):
         attrs.append('[text_output: "%s"]' % f["text_output"])
